@@ -167,12 +167,13 @@ const c05IndexBound = uint64(1) << 62
 // "Tail-Head <= MaxDESize" is NOT assumed: MaxDESize is a governance parameter that may be lowered below
 // the current length of a queue; the steps must behave for such states too.
 func c05BuildQueues(e *c05Env, nAddr int, win []int, mk func() types.DE) *c05State {
-	return c05BuildQueuesOpt(e, nAddr, win, mk, true)
+	return c05BuildQueuesOpt(e, nAddr, make([]int, nAddr), win, mk, true)
 }
 
 // c05BuildQueuesOpt: withNoRecord selects whether "empty queue without a record" is enumerated as a
 // shape of its own (it reads exactly like the record (0,0)).
-func c05BuildQueuesOpt(e *c05Env, nAddr int, win []int, mk func() types.DE, withNoRecord bool) *c05State {
+// The window length of address a ranges over lo[a]..win[a].
+func c05BuildQueuesOpt(e *c05Env, nAddr int, lo, win []int, mk func() types.DE, withNoRecord bool) *c05State {
 	ctx, k := e.ctx, e.k
 	st := &c05State{}
 
@@ -184,7 +185,7 @@ func c05BuildQueuesOpt(e *c05Env, nAddr int, win []int, mk func() types.DE, with
 	vs.Assume(k.SetParams(ctx, p) == nil)
 
 	for a := 0; a < nAddr; a++ {
-		n := vs.Pick("queue_len", win[a]+1)
+		n := lo[a] + vs.Pick("queue_len", win[a]-lo[a]+1)
 		q := c05Queue{}
 		if n == 0 && win[a] > 0 && withNoRecord && vs.Bool("no_queue_record") {
 			st.q = append(st.q, q)
